@@ -68,6 +68,9 @@ def judge_tlc(ctx, case, res, mism, wf):
         if default and not case["raised"] and bool(v["sig"]) == bool(case["sig"]):
             mism.append(f"signature: model predicts {'kept' if case['sig'] else 'changed'}, real differences {v['sig']}")
         w = wf.get(f"{res['idx']}/{v['name']}/graph")
+        if w is not None:
+            # Graph.tla SSA is global; ONNX lets sibling branches reuse a name: SSA counts only if the scoped rule fails too
+            w = (w[0] or v.get("ssa_scoped", False), w[1], w[2], w[3])
         if w is not None and not (w[0] and w[1] and w[3]):
             what = ", ".join(n for n, ok in zip(("names not unique (SSA)", "a value is used before / outside its definition (scope, topological order)", "", "an operator domain has no opset import"), w) if not ok and n)
             ctx.report(_blob(case, v, {"symptom": "wf", "detail": what}), f"{v['name']}: Graph.tla WF fails on the result: {what}\n{_orig_text(case)}",
@@ -120,6 +123,7 @@ def judge_lib(ctx, plan, res, wf):
             w = wf.get(f"{rel}/{r['mode']}/{v['name']}/graph")
             w0 = wf.get(f"{rel}/{r['mode']}/orig/graph")
             if w is not None and w0 is not None:
+                w = (w[0] or v.get("ssa_scoped", False), w[1], w[2], w[3])
                 bad = [n2 for n2, ok, ok0 in zip(("SSA", "scope/topological order", "", "opset imports"), w, w0) if n2 and ok0 and not ok]
                 if bad:
                     ctx.report(dict(base, symptom="wf", detail=bad), f"{rel} lifted as {r['mode']}: {v['name']}: Graph.tla WF fails on the result: {bad}",
